@@ -48,6 +48,12 @@ def configs(rng, quick):
         for s in range(S):
             steps = (6000 if mv == "hamiltonian" else 16000) * (1 if quick else 4)
             out.append({"system": "harmonic", "natoms": 3 if mv != "hamiltonian" else 2, "T": T, "k": 0.6, "move": mv, "steps": steps, "burn": steps // 10, "seed": rng.randint(0, 2 ** 31)})
+    # coarse Hamiltonian trajectories (20-40 % rejected: what the integrator keeps across a rejection matters) and a run re-heated on the fly
+    for s_ in range(S):
+        steps = 8000 * (1 if quick else 4)
+        out.append({"system": "harmonic", "natoms": 2, "T": T, "k": 0.6, "move": "hamiltonian", "dt": 100.0, "nsteps": 2, "variant": "coarse", "steps": steps, "burn": steps // 10, "seed": rng.randint(0, 2 ** 31)})
+        steps = 16000 * (1 if quick else 4)
+        out.append({"system": "harmonic", "natoms": 3, "T": 150.0, "T_switch": 450.0, "k": 0.6, "move": "ball", "variant": "reheated", "steps": steps, "burn": steps // 5, "seed": rng.randint(0, 2 ** 31)})
     for mv in (["rotation"] if quick else ["rotation", "ball+rotation"]):
         for s in range(S):
             steps = 30000 * (1 if quick else 4)
@@ -56,6 +62,11 @@ def configs(rng, quick):
         for s in range(S):
             steps = 60000 * (1 if quick else 3)
             out.append({"system": "isobaric", "natoms": n, "T": T, "P": 2.585e-5, "max_value": 0.3, "steps": steps, "burn": steps // 10, "seed": rng.randint(0, 2 ** 31)})
+    for s_ in range(S):
+        steps = 60000 * (1 if quick else 3)
+        out.append({"system": "isobaric", "natoms": 2, "T": 200.0, "T_switch": 400.0, "P": 2.585e-5, "P_switch": 4.0e-5, "variant": "reheated", "max_value": 0.3, "steps": steps, "burn": steps // 5, "seed": rng.randint(0, 2 ** 31)})
+        steps = 40000 * (1 if quick else 4)
+        out.append({"system": "gc", "T": 300.0, "T_switch": 600.0, "a": 3.0, "L": 10.0, "species": "atom", "variant": "reheated", "steps": steps, "burn": steps // 5, "thin": 20, "seed": rng.randint(0, 2 ** 31)})
     for sp, a in ([("atom", 3.0), ("molecule", 2.0)] if quick else [("atom", 3.0), ("atom", 6.0), ("molecule", 2.0), ("molecule", 4.0)]):
         for s in range(S):
             steps = 40000 * (1 if quick else 4)
@@ -69,7 +80,7 @@ def judge(c, r, stage=1):
     tests = []
     o = r["obs"]
     z = (o["mean"] - r["expected"]) / max(o["se"], 1e-300)
-    tests.append((f"{c['system']}:mean", z, ZT, abs(z) > ZT))
+    tests.append((f"{c['system']}:mean" + (":" + c["variant"] if c.get("variant") else ""), z, ZT, abs(z) > ZT))
     if c["system"] == "dipole":
         s, n = ks_uniform([(p + math.pi) / (2 * math.pi) for p in r["phi"]])
         tests.append(("dipole:azimuth-uniform", s, KT, s > KT))
@@ -109,31 +120,31 @@ def run(res: C.Result):
             res.fail(f"exception:{c['system']}", f"{c['system']} run raised {r['exception']}: {r['message'][:300]}", {"input": c, "observed": {x: r[x] for x in ("exception", "message", "trace")}})
             continue
         for name, stat, thr, bad in judge(c, r):
-            stats.append({"test": name, "config": {k: c[k] for k in c if k in ("move", "natoms", "species", "a", "steps")}, "n": r["obs"]["n"], "statistic": round(float(stat), 3),
+            stats.append({"test": name, "config": {k: c[k] for k in c if k in ("move", "natoms", "species", "a", "steps", "variant")}, "n": r["obs"]["n"], "statistic": round(float(stat), 3),
                           "threshold": thr, "mean": r["obs"]["mean"], "expected": r["expected"], "stage": 1, "verdict": "suspect" if bad else "ok"})
             if bad:
                 suspects.append((c, name))
     # confirmation runs: independent seed, 4x the steps; a violation needs both
     confirm = {}
     for c, name in suspects:
-        key = (c["system"], str(c.get("move") or c.get("species") or c.get("natoms")))
+        key = (c["system"], str(c.get("move") or c.get("species") or c.get("natoms")), c.get("variant"))
         if key in confirm:
             continue
         c2 = dict(c, steps=c["steps"] * 4, burn=c["burn"] * 4, seed=rng.randint(0, 2 ** 31))
         confirm[key] = (c2, C.run_impl("c01.py", {"cases": [c2]}, timeout=7000)["results"][0])
     for (c, name) in suspects:
-        key = (c["system"], str(c.get("move") or c.get("species") or c.get("natoms")))
+        key = (c["system"], str(c.get("move") or c.get("species") or c.get("natoms")), c.get("variant"))
         c2, r2 = confirm[key]
         if "exception" in r2:
             continue
         again = [t for t in judge(c2, r2, stage=2) if t[0] == name]
         if again and again[0][3]:
-            stats.append({"test": name, "config": {k: c2[k] for k in c2 if k in ("move", "natoms", "species", "a", "steps")}, "n": r2["obs"]["n"], "statistic": round(float(again[0][1]), 3),
+            stats.append({"test": name, "config": {k: c2[k] for k in c2 if k in ("move", "natoms", "species", "a", "steps", "variant")}, "n": r2["obs"]["n"], "statistic": round(float(again[0][1]), 3),
                           "threshold": again[0][2], "mean": r2["obs"]["mean"], "expected": r2["expected"], "stage": 2, "verdict": "violation(confirmed)"})
             res.fail(name, f"{name}: observed {r2['obs']['mean']:.6g} +- {r2['obs']['se']:.2g} vs analytic {r2['expected']:.6g} (statistic {again[0][1]:.2f}, threshold {again[0][2]}), "
                      f"confirmed on an independent run of {c2['steps']} steps", {"input": c2, "observed": {"obs": r2["obs"], "expected": r2["expected"], "first_run": {k: c[k] for k in ("steps", "seed")}}})
         else:
-            stats.append({"test": name, "config": {k: c2[k] for k in c2 if k in ("move", "natoms", "species", "a", "steps")}, "stage": 2, "verdict": "not confirmed (first-stage fluctuation)"})
+            stats.append({"test": name, "config": {k: c2[k] for k in c2 if k in ("move", "natoms", "species", "a", "steps", "variant")}, "stage": 2, "verdict": "not confirmed (first-stage fluctuation)"})
     res.coverage.update(
         evaluations=sum(c["steps"] for c in cfgs), distinct_nontrivial=len(cfgs),
         rule="long real runs, observables sampled after every srun step: harmonic wells with ball / box / (sphere, ball+box, d*2) / Hamiltonian-Verlet proposals; rigid dipole in a "
